@@ -647,6 +647,31 @@ func (rn *runner) modelHolds(cs []tcase) {
 				Model: a, Key: "holds:" + cs[i].key(), Detail: "C08_holds_on is false on the model (a theorem's executable form fails)"})
 		}
 	}
+	// the end-to-end theorem evaluated on the IMPLEMENTATION's bytes: the Coq-side reader and patch
+	// applier (patch_bytes / unpatch_bytes) must turn lines old into lines new and back
+	reqs = reqs[:0]
+	var which []int
+	for i, c := range cs {
+		out, panicked := implRaw(c)
+		if panicked {
+			continue
+		}
+		reqs = append(reqs, "patch "+common.Hex([]byte(c.oldName))+" "+common.Hex([]byte(c.newName))+" "+common.Hex(out)+" "+common.Hex(c.old)+" "+common.Hex(c.new))
+		which = append(which, i)
+	}
+	ans, err = rn.m.Ask(reqs)
+	if err != nil {
+		rn.res.Notes = append(rn.res.Notes, "model error: "+err.Error())
+		return
+	}
+	for k, a := range ans {
+		rn.res.Count("coq-reader-patches-impl-bytes:" + a)
+		if a != "true" {
+			c := cs[which[k]]
+			rn.res.Violate(common.Violation{Kind: "correspondence", Oracle: "bytes-patch", Input: c.input(),
+				Model: a, Key: "bytes-patch:" + c.key(), Detail: "patch_bytes/unpatch_bytes (Coq reader + applier) on the bytes returned by diff.Diff do not reproduce lines new / lines old"})
+		}
+	}
 }
 
 func main() {
